@@ -28,6 +28,14 @@ type Engine struct {
 	used      map[string]map[string]*FuncContract
 	overlay   map[string][]byte
 	mutCache  map[*packages.Package]map[*types.Var]bool
+	implicit  []*implicitJob // helpers without contract called from nopanic functions: verified under an implicit no-panic contract
+	implDone  map[string]bool
+}
+
+type implicitJob struct {
+	p  *packages.Package
+	pc *PkgContracts
+	c  *FuncContract
 }
 
 func NewEngine(repo string) *Engine {
